@@ -75,6 +75,14 @@ var mcBigNat = model{mod: "MC_BigNat", quick: map[string]string{"Bound": "60", "
 var coreSim = &simSpec{mod: "MC_CoreSim", qNum: 40, tNum: 1500, qDepth: 40, tDepth: 60}
 var mcCore = model{mod: "MC_Core", quick: map[string]string{"Depth": "2"}, thorough: map[string]string{"Depth": "3"}}
 
+var mcSqrt = model{mod: "MC_Sqrt", quick: map[string]string{"NMax": "400", "PMax": "3"}, thorough: map[string]string{"NMax": "10000", "PMax": "4"}}
+var mcSpecial = model{mod: "MC_Special"}
+var mcTextQ = model{mod: "MC_Text", quick: map[string]string{"CMax": "99"}, thorough: map[string]string{"CMax": "999"}}
+var mcGob = model{mod: "MC_Gob", quick: map[string]string{"CMax": "120"}, thorough: map[string]string{"CMax": "3000"}}
+var mcContext = model{mod: "MC_Context", quick: map[string]string{"Depth": "2"}, thorough: map[string]string{"Depth": "3"}}
+
+var mcSmall = model{mod: "MC_Small", quick: map[string]string{"CMax": "40"}, thorough: map[string]string{"CMax": "150"}}
+
 var commonAssumptions = []string{
 	"the BigInteger accelerators of BigNat agree with their pure TLA+ definitions beyond the operands compared by MC_BigNat",
 	"operand sizes, precisions (< 2^31) and exponent gaps are bounded by the generators (see rule)",
@@ -100,13 +108,13 @@ var checks = map[string]*check{
 		req:         []string{"FMA:differs-from-mul-add", "FMA:same-as-mul-add", "FMA:tie-up", "FMA:tie-down", "FMA:fits", "FMA:special"},
 	},
 	"C04": {
-		id: "C04", models: []model{}, trace: "Trace_Core", batch: 4, sim: coreSim,
+		id: "C04", models: []model{mcSpecial}, trace: "Trace_Core", batch: 4, sim: coreSim,
 		gen:         func(g *gen.G, thor bool) []gen.Program { return gen.Special(g, thor) },
 		rule:        "complete enumeration of operation x operand classes {-Inf,-finite,-0,+0,+finite,+Inf}^k x six modes (x aliasing shapes, receiver precision 0 / > 0, finite magnitudes ordinary / near MinExp / near MaxExp); a case is distinct by operation x class tuple (cov cell)",
 		assumptions: commonAssumptions,
 	},
 	"C05": {
-		id: "C05", models: []model{}, trace: "Trace_Core", batch: 4,
+		id: "C05", models: []model{mcSqrt}, trace: "Trace_Core", batch: 4,
 		gen:         func(g *gen.G, thor bool) []gen.Program { return gen.Sqrt(g, n(thor, 1500, 40000)) },
 		rule:        "Sqrt of perfect squares r^2 (r of 1..p+2 digits), their neighbours r^2+-1, squares of midpoints (ties), random operands of 1..4000 digits, odd and even exponents incl. the int32 limits, zeros/infinities/negatives; receiver precision 0, smaller, equal, larger than x's; six modes with x's mode different from the receiver's; receiver == x; expected value from the integer-square-root specification and, independently, the squaring-only declarative predicate SqrtOK on the observed root",
 		assumptions: commonAssumptions,
@@ -154,7 +162,7 @@ var checks = map[string]*check{
 		assumptions: commonAssumptions,
 	},
 	"C11": {
-		id: "C11", models: []model{}, trace: "Trace_Core", batch: 4,
+		id: "C11", models: []model{mcTextQ}, trace: "Trace_Core", batch: 4,
 		gen:         func(g *gen.G, thor bool) []gen.Program { return gen.Roundtrip(g, n(thor, 700, 20000)) },
 		rule:        "x -> Text(e|E|g|G|p|b|f, -1) / MarshalText / json.Marshal -> Parse / UnmarshalText / json.Unmarshal into a receiver of sufficient precision, for mantissas of 1..5000 digits (trailing and interior zero words), exponents over the whole int32 range (moderate for f), both signs, zeros, infinities; TLC checks the produced string against the specification's layout (exactly MinPrec digits) and the re-read value against x",
 		assumptions: commonAssumptions,
@@ -168,35 +176,35 @@ var checks = map[string]*check{
 		req:         []string{"Parse:accepted", "Parse:rejected", "Parse:base10", "Parse:base16", "Parse:base2", "Parse:base8", "Parse:binary", "Parse:decimal", "Parse:inf", "Parse:tie-up", "Parse:tie-down", "SetString:accepted", "UnmarshalText:rejected", "Scan:accepted"},
 	},
 	"C13": {
-		id: "C13", models: []model{}, trace: "Trace_Core", batch: 4,
+		id: "C13", models: []model{mcTextQ}, trace: "Trace_Core", batch: 4,
 		gen:         func(g *gen.G, thor bool) []gen.Program { return gen.Format(g, n(thor, 1200, 30000)) },
 		rule:        "Text/Append/String/MarshalText/Format of (a) exactly representable k/2^m values under ToNearestEven, for which strconv.FormatFloat / fmt.Sprintf on the float64 are logged as a second implementation of the layout specification, (b) zeros (also with a stale exponent) and infinities, (c) arbitrary Decimals with delicate digits at the requested position under all six modes; formats e,E,f,g,G,p,b x precisions -1..40; verbs e,E,f,F,g,G,v x flags + space 0 - x widths x precisions",
 		assumptions: append(append([]string{}, commonAssumptions...), "%+v and the # flag are excluded (DESIGN 3.6); values within 47 of the top of the exponent range are excluded from explicit-precision formatting"),
 		req:         []string{"Text:e", "Text:f", "Text:g", "Text:p", "Text:b", "Text:ref", "Format:ref", "Format:0", "Format:-", "Format:+", "Format:width", "Text:shortest", "Text:prec", "Text:zero", "Text:inf"},
 	},
 	"C14": {
-		id: "C14", models: []model{}, trace: "Trace_Core", batch: 4,
+		id: "C14", models: []model{mcSmall}, trace: "Trace_Core", batch: 4,
 		gen:         func(g *gen.G, thor bool) []gen.Program { return gen.Conv(g, n(thor, 1500, 40000)) },
 		rule:        "Int64/Uint64/Int/Rat/IsInt/MinPrec of Decimals around 2^63, 2^64, 10^19, 10^20, 10^38 with and without fractional parts (short, far 0..01, 9..9), arbitrary and special values; SetInt64/SetUint64/NewDecimal on all edge values and random ones; SetInt of integers up to 5000 digits incl. delicate digits after the precision and trailing zero words; SetRat with terminating, integer and non-terminating quotients and quotient ties; receiver precision 0 and > 0, six modes",
 		assumptions: commonAssumptions,
 		req:         []string{"Int64:limit", "Uint64:limit", "Int64:acc0", "Int64:acc-1", "Int64:acc1", "Uint64:acc1", "SetInt:prec0", "SetInt:precn", "SetRat:integer", "SetRat:fraction", "IsInt:TRUE", "IsInt:FALSE", "Rat:finite", "Rat:inf"},
 	},
 	"C15": {
-		id: "C15", models: []model{}, trace: "Trace_Core", batch: 4,
+		id: "C15", models: []model{mcSmall}, trace: "Trace_Core", batch: 4,
 		gen:         func(g *gen.G, thor bool) []gen.Program { return gen.Float(g, n(thor, 1500, 40000)) },
 		rule:        "SetFloat64 of bit patterns (all exponent fields, mantissas 0/1/2^52-1/random, subnormals, infinities, NaNs) with receiver precision 0, too small, and large enough for the full decimal expansion; SetFloat of big.Float values of 1..2000 bits; Float64/Float32 of Decimals constructed from the specification's side: exactly representable values, exact midpoints between adjacent floats, odd multiples of ulp/4096 (the double-rounding trigger), each also nudged just above/below, values far out of range, specials; Float into big.Float of precision 1..500",
 		assumptions: append(append([]string{}, commonAssumptions...), "the harness decomposes float64/float32/*big.Float exactly (math.Float64bits, MantExp)", "SetFloat/Float error bound fixed at 64 ulp (the property says 'a few dozen')"),
 		req:         []string{"SetFloat64:fin", "SetFloat64:nan", "SetFloat64:inf", "SetFloat64:zero", "SetFloat64:exact", "SetFloat64:rounded", "SetFloat:fin", "SetFloat:exact", "SetFloat:rounded", "Float64:fin", "Float64:inf", "Float64:zero", "Float64:subnormal", "Float32:fin", "Float:finite"},
 	},
 	"C16": {
-		id: "C16", models: []model{}, trace: "Trace_Core", batch: 4,
+		id: "C16", models: []model{mcSmall}, trace: "Trace_Core", batch: 4,
 		gen:         func(g *gen.G, thor bool) []gen.Program { return gen.Cmp(g, n(thor, 400, 10000)) },
 		rule:        "triples of Decimals (equal up to trailing zero words, differing in a far digit of mantissas of different length, neighbours, opposite signs, zeros, infinities, exponents at the int32 limits) compared in all 9 ordered pairs, with Sign/Signbit/IsZero/IsInf; the expected answer is the sign of the exact difference computed by the specification",
 		assumptions: commonAssumptions,
 		req:         []string{"Cmp:-1", "Cmp:0", "Cmp:1"},
 	},
 	"C17": {
-		id: "C17", models: []model{}, trace: "Trace_Core", batch: 4,
+		id: "C17", models: []model{mcGob}, trace: "Trace_Core", batch: 4,
 		gen:         func(g *gen.G, thor bool) []gen.Program { return gen.Gob(g, n(thor, 1500, 30000)) },
 		rule:        "GobEncode/GobDecode chains for values of 1..300 words (trailing zero words, all forms, inexact accuracies) x receivers (zero value, precision 0 with a mode, own precision and mode), the encoding/gob stream path, hand-made payloads, and valid encodings corrupted by a single bit flip (first 32 / last 8 bytes), byte overwrite of the attribute bytes, truncation at the start and at the end, extension, and mantissa words overwritten with values >= 10^19, zero or unnormalised; the encoder is validated against the specification's decoder, the decoder against WellFormedGob/DecodeGob; after every decode the receiver is used in an addition",
 		assumptions: commonAssumptions,
@@ -213,14 +221,14 @@ var checks = map[string]*check{
 		req:         []string{"ParEnd", "PoolGet", "PoolPut", "Par:k2"},
 	},
 	"C19": {
-		id: "C19", models: []model{}, trace: "Trace_Core", batch: 4,
+		id: "C19", models: []model{mcContext}, trace: "Trace_Core", batch: 4,
 		gen:         func(g *gen.G, thor bool) []gen.Program { return gen.Ctx(g, n(thor, 50, 1000), n(thor, 150, 300)) },
 		rule:        "context sessions of 150-300 calls: Add/Sub/Mul/Quo/FMA/Sqrt/Neg/Abs/Set with receivers mostly distinct from the operands (and some aliased), zeros and infinities injected so that NaN-producing calls occur, Err() at random points, SetPrec/SetMode of the context, factories, receivers whose own precision/mode differ from the context's, and calls with a nil operand (a panic that is not ErrNaN); the latch is a hidden variable of the specification, inferred by TLC from the history",
 		assumptions: commonAssumptions,
 		req:         []string{"Ctx.Add:latched", "Ctx.Mul:nan", "Ctx.Quo:nan", "Ctx.Err:TRUE", "Ctx.Err:FALSE", "Ctx.AddNilY:panic", "Ctx.Sqrt:distinct", "Ctx.FMA:distinct", "Ctx.Add:aliased"},
 	},
 	"C20": {
-		id: "C20", models: []model{}, trace: "Trace_Core", batch: 4,
+		id: "C20", models: []model{mcSmall}, trace: "Trace_Core", batch: 4,
 		gen:         func(g *gen.G, thor bool) []gen.Program { return gen.Raw(g, n(thor, 1500, 30000)) },
 		rule:        "SetBitsExp with slices of 0..50 words (zero words high and low, unnormalised top word, all-zero), int64 exponents incl. +-2^31+-40 and the ends of int64, receiver precision 0 / smaller / larger than the slice; SetBitsExp with the receiver's own mantissa; BitsExp; MantExp/SetMantExp with offsets that land within 40 of the int32 limits",
 		assumptions: commonAssumptions,
